@@ -196,6 +196,7 @@ func cmdCheck(args []string) {
 		cfg2.Jobs = 4
 		cfg2.TimeoutMS = 60000
 		cfg2.StageMS = 15000
+		cfg2.Seed = cfg.Seed + 3
 		SolveAll(retry, &cfg2)
 		phase("retry done")
 		res.Extra["retried_after_timeout"] = len(retry)
@@ -370,6 +371,38 @@ func cmdCheck(args []string) {
 		res.Undecided = append(res.Undecided, v.undecided...)
 		if len(v.viol) > 0 {
 			exit = 1
+		}
+	}
+	// safety net for the evidence record: every generated obligation is either discharged, a
+	// listed known finding, part of a reported violation, or reported as undecided
+	{
+		accounted := map[string]bool{}
+		for _, u := range res.Undecided {
+			accounted[u.Name] = true
+		}
+		for _, v := range res.Violations {
+			if i := strings.Index(v, "# "); i >= 0 {
+				accounted[strings.TrimSpace(strings.SplitN(v[i+2:], ":", 2)[0])] = true
+				accounted[strings.TrimSpace(v[i+2:])] = true
+			}
+		}
+		violFns := map[string]bool{}
+		for _, v := range verdicts {
+			_ = v
+		}
+		for gi, g := range groups {
+			if len(verdicts[gi].viol) > 0 {
+				violFns[g.fn] = true
+			}
+		}
+		for _, o := range res.Obls {
+			if o.Kind == "cover" || o.Status == "discharged" || res.KnownObls[o.Name] || accounted[o.Name] {
+				continue
+			}
+			if violFns[o.Func] && (green[o.Name] || greenMissing[o.Func]) {
+				continue // belongs to a function already reported as violating
+			}
+			res.Undecided = append(res.Undecided, o)
 		}
 	}
 	// vacuity guard: expected-green obligations that vanished
